@@ -131,7 +131,7 @@ PROPS = {
                   npart("long", "^TestC14Long$", {"shards": 4, "checks": 1, "timeout": 900, "env": {"VERIF_C14_LONG": 8}},
                         {"shards": 8, "checks": 1, "timeout": 3 * 3600, "env": {"VERIF_C14_LONG": 800}})],
                  "Cases are generated parallel programs (rapid Custom generator harvested with Example(seed): container in {Map, MapOf, Cache, CacheOf}, profile in {write-heavy, "
-                 "read-heavy, range-under-write, settings churn (SetDefaultExpiration/SetEvictedCallback/DeleteExpired/Items), clear/resize churn over 300-4000 keys, janitor on at 1 ms, big tables of 12000-30000 keys, shrink edge (a table grown by 200-2500 keys, drained to 3-6 toggled keys plus 0-16 that stay, so that the entry count moves across the shrink threshold; 16 fresh containers per program)}, "
+                 "read-heavy, range-under-write, settings churn (SetDefaultExpiration/SetEvictedCallback/DeleteExpired/Items), clear/resize churn over 300-4000 keys, janitor on at 1 ms, big tables of 12000-30000 keys, shrink edge (a table grown by 200-2500 keys, drained to 3-6 toggled keys plus 0-16 that stay, so that the entry count moves across the shrink threshold; 16 fresh containers per program), multi (no container shared: 2-16 goroutines each constructing, filling, reading back, draining or clearing 6-24 containers of their own, with and without janitor - what the package shares BETWEEN containers)}, "
                  "2-64 goroutines x 50-2000 calls, key range 1-400, per-goroutine op streams from the program's seed), each executed natively as its own Go subtest in a binary built "
                  "with -race. Oracle: the Go race detector (any report fails the subtest) and payload integrity: every value read back (also in visitors, Compute arguments, callbacks, "
                  "Items) is a pointer to a freshly initialised 72-byte payload whose checksum must be consistent. evaluations = programs; non-trivial = >= 2 goroutines share a key range "
